@@ -242,6 +242,17 @@ def replay_fresh(path, hashseed="0"):
     return d["reproduced"], d["digest"], p.stdout
 
 
+def run_child_world(world, hashseed):
+    """Execute a world in a real child interpreter started with PYTHONHASHSEED=hashseed."""
+    env = dict(os.environ, PYTHONHASHSEED=str(hashseed), PYTHONDONTWRITEBYTECODE="1", VERIF_NO_REEXEC="1")
+    p = subprocess.run([PY, os.path.join(VERIF, "check"), "exec-world"], input=canon(world), env=env,
+                       capture_output=True, text=True, timeout=300)
+    line = [l for l in p.stdout.splitlines() if l.startswith("WORLD-JSON ")]
+    if not line:
+        raise HarnessError("child interpreter failed: %s\n%s" % (p.stdout[-1500:], p.stderr[-1500:]))
+    return json.loads(line[-1][len("WORLD-JSON "):], object_hook=_unbytes)
+
+
 # ---------------------------------------------------------------------------
 # known findings
 # ---------------------------------------------------------------------------
